@@ -290,6 +290,10 @@ class NativeCtx(object):
             raise Rejected("assumption")
 
     def obj(self, cls, **fields):
+        if cls.startswith("datetime."):
+            import datetime
+            f = {k: int(v) for k, v in fields.items()}
+            return getattr(datetime, cls.split(".")[1])(**f)
         for modname in ("pymeeus.Epoch", "pymeeus.Angle", "pymeeus.Interpolation",
                         "pymeeus.CurveFitting", "pymeeus.Earth", "pymeeus.Minor"):
             m = _import(modname)
